@@ -167,7 +167,16 @@ class Taint:
         m = self.idx.lookup_method(self.cls.fq, last)
         if m is not None:
           ret = A.unparse(m.node.returns, 200) if m.node.returns is not None else ''
-          if 'Html' in ret:
+          if ret.strip("'\" ") in ('Html', 'base.Html'):
+            return CLEAN, ''      # an Html object: what went into it is checked at the callee's own sinks
+          if 'Html' in ret and depth > 1 and m.node is not self.fn:
+            # "str or Html": the str alternative is text - look at what the method returns
+            sub = Taint(self.idx, m)
+            rs = [sub.expr(r.value, depth - 2) for r in ast.walk(m.node)
+                  if isinstance(r, ast.Return) and r.value is not None] or [(CLEAN, '')]
+            r = max(rs, key=lambda x: x[0])
+            if r[0] == TAINT:
+              return TAINT, f'{d}(...) returning {r[1]}'
             return CLEAN, ''
           if m.name == 'css_class_name':
             return CLASSNAME, 'css_class_name(...)'
